@@ -16,7 +16,8 @@
 //
 //	E  (fault injection) when the CSPRNG stream fails after k bytes, k below the
 //	   number of bytes the healthy run drew, the entry point reports an error: no
-//	   secret is produced from a failed read (two further runs per case).
+//	   secret is produced from a failed read; the same when exactly one Read call
+//	   fails and the source then recovers (four further runs per case).
 //
 // A time-seeded local PRNG is invisible to B but fails A and D; the global
 // math/rand fails A, B, C and D; an ignored read error fails E.
@@ -76,6 +77,12 @@ type stream struct {
 	failAt  uint64
 	failErr error
 	failed  int // failed reads so far
+	// transient fault: exactly the main-stream Read call number failCall (0-based) fails, with
+	// failShort of its bytes served; every other call is served normally
+	transient bool
+	failCall  int
+	failShort int
+	mainCalls int // multi-byte Read calls so far
 }
 
 func newStream(seed []byte) *stream {
@@ -99,6 +106,25 @@ func (s *stream) Read(p []byte) (int, error) {
 		p[0] = s.block(1, s.one)[0]
 		s.one++
 		return 1, nil
+	}
+	call := s.mainCalls
+	s.mainCalls++
+	if s.transient && call == s.failCall {
+		n := s.failShort
+		if n >= len(p) {
+			n = len(p) - 1
+		}
+		for i := 0; i < n; i++ {
+			if len(s.buf) == 0 {
+				s.buf = s.block(0, s.blockNo)
+				s.blockNo++
+			}
+			p[i] = s.buf[0]
+			s.buf = s.buf[1:]
+		}
+		s.off += uint64(n)
+		s.failed++
+		return n, s.failErr
 	}
 	if s.failing && s.off+uint64(len(p)) > s.failAt {
 		n := int(s.failAt - s.off)
@@ -514,6 +540,7 @@ type runResult struct {
 	drawn     int
 	mainBytes int // bytes drawn from the main stream (without the optional one-byte reads)
 	failed    int // reads that failed (fault injection only)
+	mainCalls int // multi-byte Read calls made on the stream
 	untouched bool
 	err       error
 	panicked  bool
@@ -529,9 +556,30 @@ func execute(o *op, seedS []byte, K int64) runResult {
 		return r
 	}
 	defer os.RemoveAll(dir)
-	r.drawn, r.mainBytes, r.untouched = pinnedStream(newStream(seedS), K, func() {
+	st := newStream(seedS)
+	r.drawn, r.mainBytes, r.untouched = pinnedStream(st, K, func() {
 		r.panicked, r.panicVal, r.frame = vk.Catch(func() { r.views, r.err = o.run(dir) })
 	})
+	r.mainCalls = st.mainCalls
+	return r
+}
+
+// executeTransient runs o with stream(seedS) whose main-stream Read call number failCall fails
+// once (short bytes served, then ferr); all other calls are served normally.
+func executeTransient(o *op, seedS []byte, K int64, failCall, short int, ferr error) runResult {
+	var r runResult
+	dir, err := os.MkdirTemp("", "c38")
+	if err != nil {
+		r.err = fmt.Errorf("harness: %v", err)
+		return r
+	}
+	defer os.RemoveAll(dir)
+	st := newStream(seedS)
+	st.transient, st.failCall, st.failShort, st.failErr = true, failCall, short, ferr
+	r.drawn, r.mainBytes, r.untouched = pinnedStream(st, K, func() {
+		r.panicked, r.panicVal, r.frame = vk.Catch(func() { r.views, r.err = o.run(dir) })
+	})
+	r.failed, r.mainCalls = st.failed, st.mainCalls
 	return r
 }
 
@@ -632,7 +680,7 @@ func TestSecretsFromCSPRNG(t *testing.T) {
 		// ---- rule E: fault injection.  The healthy run (S1,K1) drew mainBytes bytes; with the
 		// same stream failing after k < mainBytes bytes some read of secret material must fail,
 		// and then no secret may come out: the entry point has to report an error.
-		if need := runs[0].mainBytes; need > 0 && len(fails) == 0 {
+		if need := runs[0].mainBytes; need > 0 && runs[0].mainCalls > 0 && len(fails) == 0 {
 			k := rapid.IntRange(0, need-1).Draw(t, "failAfter")
 			switch rapid.IntRange(0, 3).Draw(t, "failEdge") {
 			case 0:
@@ -655,13 +703,43 @@ func TestSecretsFromCSPRNG(t *testing.T) {
 			if o.kind == "ecies-ephemeral-key" {
 				blameE = "ecies-ephemeral-key-iv"
 			}
-			for i, f := range []runResult{f1, f2} {
+			// transient fault: exactly one of the Read calls the healthy run made fails, the source
+			// then recovers (an error that a later successful read overwrites must not be lost)
+			ncalls := runs[0].mainCalls
+			ci := rapid.IntRange(0, ncalls-1).Draw(t, "failCall")
+			short := rapid.SampledFrom([]int{0, 0, 1, 8, 15, 31}).Draw(t, "failShort")
+			o.desc["transient_fail_call"], o.desc["transient_short_bytes"], o.desc["healthy_read_calls"] = ci, short, ncalls
+			t1 := executeTransient(o, S1, K1, ci, short, ferr)
+			t2 := executeTransient(o, S2, K1, ci, short, ferr)
+			vk.Count("fault_runs", 2)
+			blameT := blameE
+			if o.kind == "keystore-master-key" {
+				blameT = "keystore-master-key-iv"
+				if ci >= 2 {
+					blameT = "ecdsa-private-key" // calls 0 and 1 are IV and master key
+				}
+			}
+			type fr struct {
+				r     runResult
+				peer  runResult
+				blame string
+				what  string
+			}
+			frs := []fr{
+				{f1, f2, blameE, fmt.Sprintf("failed (%v) for good after %d of the %d bytes it needs", ferr, k, need)},
+				{f2, f1, blameE, fmt.Sprintf("failed (%v) for good after %d of the %d bytes it needs", ferr, k, need)},
+				{t1, t2, blameT, fmt.Sprintf("failed once (%v, %d bytes served) on read call %d of %d and then recovered", ferr, short, ci, ncalls)},
+				{t2, t1, blameT, fmt.Sprintf("failed once (%v, %d bytes served) on read call %d of %d and then recovered", ferr, short, ci, ncalls)},
+			}
+			for i, x := range frs {
+				f, blameE := x.r, x.blame
+				f1, f2 := x.r, x.peer
 				if f.failed == 0 {
-					t.Fatalf("harness: %s did not hit the injected failure at %d of %d bytes (run %d)", o.name, k, need, i)
+					t.Fatalf("harness: %s did not hit the injected failure (run %d: %s)", o.name, i, x.what)
 				}
 				if f.panicked {
 					vk.Class("fault/" + o.name + "/panic")
-					vk.Report(t, "C38:"+blameE+":panic-on-failed-os-csprng-read:"+f.frame, fmt.Sprintf("%s with crypto/rand.Reader failing (%v) after %d of %d bytes: panic %v", o.name, ferr, k, need, f.panicVal), o.desc)
+					vk.Report(t, "C38:"+blameE+":panic-on-failed-os-csprng-read:"+f.frame, fmt.Sprintf("%s: crypto/rand.Reader %s: panic %v", o.name, x.what, f.panicVal), o.desc)
 					return
 				}
 				if f.err == nil {
@@ -670,7 +748,7 @@ func TestSecretsFromCSPRNG(t *testing.T) {
 						same = "; two different CSPRNG streams gave the SAME secret"
 					}
 					vk.Class("fault/" + o.name + "/secret-produced")
-					vk.Report(t, "C38:"+blameE+":secret-produced-after-failed-os-csprng-read", fmt.Sprintf("%s returned a secret although crypto/rand.Reader failed (%v) after %d of the %d bytes it needs%s", o.name, ferr, k, need, same), o.desc)
+					vk.Report(t, "C38:"+blameE+":secret-produced-after-failed-os-csprng-read", fmt.Sprintf("%s returned a secret although crypto/rand.Reader %s%s", o.name, x.what, same), o.desc)
 					return
 				}
 				if !f.untouched {
